@@ -340,25 +340,26 @@ def enumeration_scenarios():
     return out
 
 
-def enumerate_crash_points(scn, stride=1, gran="call", scratch_root=None):
-    """Every call boundary and every FS operation of the single step of ``scn``
-    as a crash point.  Returns summary with violations."""
+def enumeration_plans(scn, stride=1, scratch_root=None):
+    """Fault-free base run of the single-step scenario; returns (plans, base
+    violations): every call boundary, FS read and tx invocation as one plan."""
     base = execute(scn, scratch_root)
     ev = base["events"][0]
     ext = ev.get("extent") or {}
-    out = {"id": scn["id"], "points": 0, "fired": 0, "violations": [], "sites": set(),
-           "calls": ext.get("calls") or 0, "io": ext.get("io") or 0}
-    for v in base["violations"]:
-        out["violations"].append({"scenario": scn, "violation": v, "pass": "fault-free"})
     plans = []
-    ncalls = ext.get("calls") or 0
-    for k in range(1, ncalls + 1, stride):
+    for k in range(1, (ext.get("calls") or 0) + 1, stride):
         plans.append({"kind": "trace", "at": k, "gran": "call"})
     for j in range(1, (ext.get("io") or 0) + 1):
         plans.append({"kind": "io", "at": j})
         plans.append({"kind": "short", "at": j})
     for n in range(1, (ext.get("subproc") or 0) + 1):
         plans.append({"kind": "subproc", "at": n, "mode": "oserror"})
+    viols = [{"scenario": scn, "violation": v, "pass": "fault-free"} for v in base["violations"]]
+    return plans, viols
+
+
+def run_enumeration_chunk(scn, plans, scratch_root=None):
+    out = {"id": scn["id"], "points": 0, "fired": 0, "violations": [], "sites": set()}
     for f in plans:
         s = copy.deepcopy(scn)
         s["steps"][0]["fault"] = f
